@@ -16,6 +16,13 @@ CLAIMS = {
              'dialect\'s substr semantics; baked-in parameters are pinned. Region-scoped known findings are excluded from the goal, everything outside them is proved.',
         note='Trusted: Python slice spec (cross-checked vs CPython), SQL 3VL evaluator, SQLite substr clause (validated against sqlite3 every run); '
              'PostgreSQL/MySQL/Oracle substr and greatest() clauses are assumed from the manuals (no servers here). Column bounds quantified over non-NULL ints.'),
+    'C08': dict(
+        text='Proof (all declarations accepted by init x all candidate values, all paths) that Int/Real/Decimal/StrConverter.validate and '
+             'Attribute/Required.validate accept a value iff it satisfies the declared min/max, integer size and signedness, max_len, nullability, '
+             'required-ness and custom check, returning the normalised value, else raise ValueError; plus ground call-site obligations that creation, '
+             'assignment, set(), get(), exists() and select(**kw) pass through attr.validate.',
+        note='Ints mathematical, floats IEEE binary64 (bounds not NaN), Decimals exact reals (Decimal(d)==d stubbed), strings with uninterpreted length and '
+             'strip (len(strip(s)) <= len(s)); max_len >= 1; py_check is an arbitrary boolean effect. Type coercions of ill-typed values (str -> int, __index__) not covered.'),
 }
 
 _NOT_BUILT = 'within reach of the technique per DESIGN.md, check not built yet'
